@@ -25,6 +25,8 @@ EXPECT = {
     "subsub": "assign_with_op_shortcut(ExpressionInfixOpcode::Sub, meta, variable, Number(meta, BigInt::from(1)))",
 }
 
+PARAMS = {"for_into_while": ["meta", "init", "cond", "step", "body"], "assign_with_op_shortcut": ["op", "meta", "variable", "rhe"], "plusplus": ["meta", "variable"], "subsub": ["meta", "variable"]}
+
 INFIX_NTS = ("ParseBoolOr", "ParseBoolAnd", "ParseCmpOpCodes", "ParseBitOr", "ParseBitAnd", "ParseShift", "ParseAddAndSub", "ParseMulDiv", "ParseExp", "ParseBitXOR")
 
 
@@ -45,7 +47,7 @@ def rule_expansions(ctx):
     ctx.rule(R, "for(init; cond; step) body = { init; while (cond) { body; step } } with the body kept as its own nested statement; v op= e is v = v op e; v++ / v-- add / subtract 1")
     for name, want in EXPECT.items():
         try:
-            got = terms.fn_term(SC, name)
+            got = terms.fn_term(SC, name, params=PARAMS[name])
         except terms.TermError as e:
             ctx.missing(R, "ast_shortcuts::" + name, str(e))
             continue
